@@ -56,9 +56,12 @@ def next_token(text, prev=None):
     """
     while text.hasNext():
         for name, f in tokenizers:
+            start = text.position
             current_token = f(text, prev=prev)
             if current_token is not None:
                 return current_token
+            if text.position != start:
+                break  # characters were skipped: rescan from the first tokenizer
 
 
 @to_buffer()
@@ -232,7 +235,7 @@ def tokenize_ignore(text, prev=None):
     >>> print(*tokenize(categorize('\x00hello')))
     hello
     """
-    while text.peek().category in (CC.Ignored, CC.Invalid):
+    while text.hasNext() and text.peek().category in (CC.Ignored, CC.Invalid):
         text.forward(1)
 
 
